@@ -1,9 +1,381 @@
+/-
+  C15 helper lemmas over a linearly ordered field (single Mathlib modules only):
+  scalar kernel = documented kernel, `np.interp` monotonicity, averaging sums, rounding.
+-/
 import KatdalModel.Model.Weights
 import Mathlib.Algebra.Order.Field.Basic
+import Mathlib.Algebra.Order.Field.Rat
 import Mathlib.Tactic.Linarith
 import Mathlib.Tactic.FieldSimp
 import Mathlib.Tactic.Ring
 open Np
 
 namespace Weights
+
+set_option linter.unusedSimpArgs false
+set_option linter.unusedSectionVars false
+
+/-! ### the scalar kernel -/
+
+theorem isFinite_val {K : Type} (x : K) : (Scalar.val x).isFinite = true := rfl
+theorem isFinite_nan {K : Type} : (Scalar.nan : Scalar K).isFinite = false := rfl
+theorem isFinite_posInf {K : Type} : (Scalar.posInf : Scalar K).isFinite = false := rfl
+theorem isFinite_negInf {K : Type} : (Scalar.negInf : Scalar K).isFinite = false := rfl
+
+section kernel
+variable {K : Type} [Field K] [LinearOrder K] [IsStrictOrderedRing K]
+
+theorem infTimes_not_finite (pos : Bool) (x : K) : (infTimes pos x).isFinite = false := by
+  unfold infTimes
+  split
+  · rfl
+  · split <;> cases pos <;> rfl
+
+
+/-- **as coded = as documented, outside the ±inf family** -/
+theorem kernelImpl_eq_spec (bad : K) (divide : Bool) (a1 a2 w : Scalar K)
+    (h : infFamily divide a1 a2 = false) :
+    kernelImpl bad divide a1 a2 w = kernelSpec bad divide a1 a2 w := by
+  cases divide
+  · -- multiply
+    cases a1 <;> cases a2 <;>
+      simp [kernelImpl, kernelSpec, Scalar.mul, isFinite_val, isFinite_nan, isFinite_posInf, isFinite_negInf, infTimes_not_finite]
+  · -- divide
+    cases a1 with
+    | nan => cases a2 <;> simp [kernelImpl, kernelSpec, Scalar.recip, Scalar.mul, isFinite_val, isFinite_nan, isFinite_posInf, isFinite_negInf]
+    | posInf =>
+      cases a2 with
+      | val y =>
+        have hy : y = 0 := by simpa [infFamily] using h
+        subst hy
+        simp [kernelImpl, kernelSpec, Scalar.recip, Scalar.mul, isFinite_val, isFinite_nan, isFinite_posInf, isFinite_negInf, infTimes]
+      | nan => simp [kernelImpl, kernelSpec, Scalar.recip, Scalar.mul, isFinite_val, isFinite_nan, isFinite_posInf, isFinite_negInf]
+      | posInf => simp [infFamily] at h
+      | negInf => simp [infFamily] at h
+    | negInf =>
+      cases a2 with
+      | val y =>
+        have hy : y = 0 := by simpa [infFamily] using h
+        subst hy
+        simp [kernelImpl, kernelSpec, Scalar.recip, Scalar.mul, isFinite_val, isFinite_nan, isFinite_posInf, isFinite_negInf, infTimes]
+      | nan => simp [kernelImpl, kernelSpec, Scalar.recip, Scalar.mul, isFinite_val, isFinite_nan, isFinite_posInf, isFinite_negInf]
+      | posInf => simp [infFamily] at h
+      | negInf => simp [infFamily] at h
+    | val x =>
+      cases a2 with
+      | nan =>
+        by_cases hx : x = 0 <;> simp [kernelImpl, kernelSpec, Scalar.recip, Scalar.mul, isFinite_val, isFinite_nan, isFinite_posInf, isFinite_negInf, hx]
+      | posInf =>
+        have hx : x = 0 := by simpa [infFamily] using h
+        subst hx
+        simp [kernelImpl, kernelSpec, Scalar.recip, Scalar.mul, isFinite_val, isFinite_nan, isFinite_posInf, isFinite_negInf, infTimes]
+      | negInf =>
+        have hx : x = 0 := by simpa [infFamily] using h
+        subst hx
+        simp [kernelImpl, kernelSpec, Scalar.recip, Scalar.mul, isFinite_val, isFinite_nan, isFinite_posInf, isFinite_negInf, infTimes]
+      | val y =>
+        by_cases hx : x = 0
+        · by_cases hy : y = 0
+          · simp [kernelImpl, kernelSpec, Scalar.recip, Scalar.mul, isFinite_val, isFinite_nan, isFinite_posInf, isFinite_negInf, hx, hy]
+          · simp [kernelImpl, kernelSpec, Scalar.recip, Scalar.mul, hx, hy, infTimes_not_finite]
+        · by_cases hy : y = 0
+          · simp [kernelImpl, kernelSpec, Scalar.recip, Scalar.mul, hx, hy, infTimes_not_finite]
+          · have e : 1 / x * (1 / y) = 1 / (x * y) := by field_simp
+            simp only [kernelImpl, kernelSpec, Scalar.recip, hx, hy, if_true, if_false, Scalar.mul,
+              isFinite_val, or_self, e]
+
+/-- the documented kernel on finite values, spelled out -/
+theorem kernelSpec_divide_val (bad x y z : K) (hx : x ≠ 0) (hy : y ≠ 0) :
+    kernelSpec bad true (.val x) (.val y) (.val z) = .val (z / (x * y)) := by
+  simp only [kernelSpec, if_true, hx, hy, or_self, if_false, Scalar.mul]
+  congr 1
+  field_simp
+
+theorem kernelSpec_divide_bad (bad z : K) (a1 a2 : Scalar K) (h : a1.isBadAuto = true ∨ a2.isBadAuto = true) :
+    kernelSpec bad true a1 a2 (.val z) = .val (bad * z) := by
+  cases a1 <;> cases a2 <;> simp_all [kernelSpec, Scalar.isBadAuto, Scalar.mul]
+
+theorem kernelSpec_multiply_val (bad x y z : K) :
+    kernelSpec bad false (.val x) (.val y) (.val z) = .val (x * y * z) := by
+  simp [kernelSpec, Scalar.mul]
+
+end kernel
+
+/-! ### np.interp -/
+
+section interp
+variable {K : Type} [Field K] [LinearOrder K] [IsStrictOrderedRing K]
+
+/-- consecutive table points are non-decreasing in both coordinates -/
+def tableMono : K × K → List (K × K) → Prop
+  | _, [] => True
+  | p0, p1 :: rest => p0.1 ≤ p1.1 ∧ p0.2 ≤ p1.2 ∧ tableMono p1 rest
+
+def tableMonoList : List (K × K) → Prop
+  | [] => True
+  | p0 :: rest => tableMono p0 rest
+
+theorem seg_nonneg {x x0 x1 y0 y1 : K} (h0 : x0 ≤ x) (h1 : x < x1) (hy : y0 ≤ y1) :
+    0 ≤ (y1 - y0) / (x1 - x0) * (x - x0) := by
+  have hd : 0 < x1 - x0 := by linarith
+  exact mul_nonneg (div_nonneg (by linarith) hd.le) (by linarith)
+
+theorem seg_le {x x0 x1 y0 y1 : K} (h0 : x0 ≤ x) (h1 : x < x1) (hy : y0 ≤ y1) :
+    y0 + (y1 - y0) / (x1 - x0) * (x - x0) ≤ y1 := by
+  have hd : 0 < x1 - x0 := by linarith
+  have hs : 0 ≤ (y1 - y0) / (x1 - x0) := div_nonneg (by linarith) hd.le
+  have : (y1 - y0) / (x1 - x0) * (x - x0) ≤ (y1 - y0) / (x1 - x0) * (x1 - x0) :=
+    mul_le_mul_of_nonneg_left (by linarith) hs
+  rw [div_mul_cancel₀ _ (ne_of_gt hd)] at this
+  linarith
+
+theorem seg_mono {x x' x0 x1 y0 y1 : K} (h0 : x0 ≤ x) (hxx : x ≤ x') (h1 : x' < x1) (hy : y0 ≤ y1) :
+    y0 + (y1 - y0) / (x1 - x0) * (x - x0) ≤ y0 + (y1 - y0) / (x1 - x0) * (x' - x0) := by
+  have hd : 0 < x1 - x0 := by linarith
+  have hs : 0 ≤ (y1 - y0) / (x1 - x0) := div_nonneg (by linarith) hd.le
+  have := mul_le_mul_of_nonneg_left (show x - x0 ≤ x' - x0 by linarith) hs
+  linarith
+
+theorem interpAux_ge (x : K) : ∀ (rest : List (K × K)) (p0 : K × K), tableMono p0 rest → p0.1 ≤ x →
+    p0.2 ≤ interpAux x p0 rest := by
+  intro rest
+  induction rest with
+  | nil => intro p0 _ _; simp [interpAux]
+  | cons p1 rest ih =>
+    intro p0 hm h0
+    obtain ⟨hx, hy, hm'⟩ := hm
+    unfold interpAux
+    split
+    · rename_i hlt
+      have := seg_nonneg h0 hlt hy
+      linarith
+    · rename_i hge
+      exact le_trans hy (ih p1 hm' (not_lt.mp hge))
+
+theorem le_lastFp : ∀ (rest : List (K × K)) (p0 : K × K), tableMono p0 rest → p0.2 ≤ lastFp p0 rest := by
+  intro rest
+  induction rest with
+  | nil => intro p0 _; simp [lastFp]
+  | cons p1 rest ih =>
+    intro p0 hm
+    obtain ⟨_, hy, hm'⟩ := hm
+    exact le_trans hy (ih p1 hm')
+
+theorem interpAux_le_last (x : K) : ∀ (rest : List (K × K)) (p0 : K × K), tableMono p0 rest → p0.1 ≤ x →
+    interpAux x p0 rest ≤ lastFp p0 rest := by
+  intro rest
+  induction rest with
+  | nil => intro p0 _ _; simp [interpAux, lastFp]
+  | cons p1 rest ih =>
+    intro p0 hm h0
+    obtain ⟨hx, hy, hm'⟩ := hm
+    unfold interpAux
+    split
+    · rename_i hlt
+      exact le_trans (seg_le h0 hlt hy) (le_lastFp rest p1 hm')
+    · rename_i hge
+      exact ih p1 hm' (not_lt.mp hge)
+
+theorem interpAux_mono {x y : K} (hxy : x ≤ y) : ∀ (rest : List (K × K)) (p0 : K × K), tableMono p0 rest →
+    p0.1 ≤ x → interpAux x p0 rest ≤ interpAux y p0 rest := by
+  intro rest
+  induction rest with
+  | nil => intro p0 _ _; simp [interpAux]
+  | cons p1 rest ih =>
+    intro p0 hm h0
+    obtain ⟨hx, hy, hm'⟩ := hm
+    by_cases hx1 : x < p1.1
+    · by_cases hy1 : y < p1.1
+      · simp only [interpAux, hx1, hy1, if_true]
+        exact seg_mono h0 hxy hy1 hy
+      · simp only [interpAux, hx1, hy1, if_true, if_false]
+        exact le_trans (seg_le h0 hx1 hy) (interpAux_ge y rest p1 hm' (not_lt.mp hy1))
+    · have hy1 : ¬ y < p1.1 := fun h => hx1 (lt_of_le_of_lt hxy h)
+      simp only [interpAux, hx1, hy1, if_false]
+      exact ih p1 hm' (not_lt.mp hx1)
+
+/-- **`np.interp` is monotone when the table is** -/
+theorem interp_monotone (tbl : List (K × K)) (hm : tableMonoList tbl) {x y vx vy : K} (hxy : x ≤ y)
+    (hx : interp x tbl = .ok vx) (hy : interp y tbl = .ok vy) : vx ≤ vy := by
+  cases tbl with
+  | nil => simp [interp] at hx
+  | cons p0 rest =>
+    simp only [interp, Except.ok.injEq] at hx hy
+    subst hx; subst hy
+    have hm' : tableMono p0 rest := hm
+    by_cases h0 : x ≤ p0.1
+    · by_cases h1 : y ≤ p0.1
+      · simp [h0, h1]
+      · simp only [h0, h1, if_true, if_false]
+        exact interpAux_ge y rest p0 hm' (le_of_lt (not_le.mp h1))
+    · have h1 : ¬ y ≤ p0.1 := fun h => h0 (le_trans hxy h)
+      simp only [h0, h1, if_false]
+      exact interpAux_mono hxy rest p0 hm' (le_of_lt (not_le.mp h0))
+
+/-- the interpolated value stays between the first and the last table value -/
+theorem interp_bounds (p0 : K × K) (rest : List (K × K)) (hm : tableMono p0 rest) (x v : K)
+    (hx : interp x (p0 :: rest) = .ok v) : p0.2 ≤ v ∧ v ≤ lastFp p0 rest := by
+  simp only [interp, Except.ok.injEq] at hx
+  subst hx
+  by_cases h0 : x ≤ p0.1
+  · simp only [h0, if_true]
+    exact ⟨le_refl _, le_lastFp rest p0 hm⟩
+  · simp only [h0, if_false]
+    have := le_of_lt (not_le.mp h0)
+    exact ⟨interpAux_ge x rest p0 hm this, interpAux_le_last x rest p0 hm this⟩
+
+end interp
+
+/-! ### averaging -/
+
+section avg
+variable {K : Type} [Field K] [DecidableEq K]
+
+/-- left fold of `+` from an arbitrary start -/
+def sumFrom (a : K) (l : List K) : K := l.foldl (· + ·) a
+
+theorem sumFrom_zero (l : List K) : sumFrom 0 l = sumK l := rfl
+
+theorem sumFrom_filter (g : Sample K → K) : ∀ (l : List (Sample K)) (a : K),
+    sumFrom a (l.map (fun s => if s.2.2 then 0 else g s)) =
+      sumFrom a ((l.filter (fun s => !s.2.2)).map g) := by
+  intro l
+  induction l with
+  | nil => intro a; rfl
+  | cons s t ih =>
+    intro a
+    cases hf : s.2.2
+    · simp only [List.map_cons, List.filter_cons, hf, Bool.not_false, if_true, sumFrom, List.foldl_cons,
+        Bool.false_eq_true, if_false]
+      exact ih _
+    · simp only [List.map_cons, List.filter_cons, hf, Bool.not_true, sumFrom, List.foldl_cons, if_true,
+        Bool.false_eq_true, if_false, add_zero]
+      exact ih _
+
+theorem foldl_accStep : ∀ (l : List (Sample K)) (acc : Acc K),
+    l.foldl accStep acc =
+      { vsum := ⟨sumFrom acc.vsum.re (l.map (·.1.re)), sumFrom acc.vsum.im (l.map (·.1.im))⟩,
+        vwsum := ⟨sumFrom acc.vwsum.re (l.map (fun s => if s.2.2 then 0 else s.2.1 * s.1.re)),
+                  sumFrom acc.vwsum.im (l.map (fun s => if s.2.2 then 0 else s.2.1 * s.1.im))⟩,
+        wsum := sumFrom acc.wsum (l.map (fun s => if s.2.2 then 0 else s.2.1)),
+        fany := acc.fany || l.any (·.2.2),
+        fall := acc.fall && l.all (·.2.2) } := by
+  intro l
+  induction l with
+  | nil => intro acc; simp [sumFrom]
+  | cons s t ih =>
+    intro acc
+    rw [List.foldl_cons, ih]
+    cases hf : s.2.2 <;>
+      simp [accStep, sumFrom, hf, Bool.or_assoc, Bool.and_assoc]
+
+/-- one bin: the accumulation loop followed by the epilogue is the documented bin value -/
+theorem bin_eq_spec (flagav : Bool) (samples : List (Sample K)) :
+    binOut flagav (1 / ((samples.length : Nat) : K)) (samples.foldl accStep acc0) = binSpec flagav samples := by
+  rw [foldl_accStep]
+  simp only [acc0, Bool.false_or, Bool.true_and, binOut, binSpec, sumFrom_filter (fun s => s.2.1),
+    sumFrom_filter (fun s => s.2.1 * s.1.re), sumFrom_filter (fun s => s.2.1 * s.1.im), sumFrom_zero]
+
+theorem binSamples_length (inp : Nat → Nat → Nat → Sample K) (ts cs ta ca b : Nat) :
+    (binSamples inp ts cs ta ca b).length = ta * ca := by
+  unfold binSamples
+  induction ta with
+  | zero => simp
+  | succ n ih =>
+    rw [List.range_succ, List.flatMap_append, List.length_append, ih]
+    simp [Nat.succ_mul]
+
+theorem binLoops_eq_foldl (inp : Nat → Nat → Nat → Sample K) (ts cs ta ca b : Nat) (acc : Acc K) :
+    (List.range ta).foldl (fun acc dt =>
+        (List.range ca).foldl (fun acc dc => accStep acc (inp (ts + dt) (cs + dc) b)) acc) acc
+      = (binSamples inp ts cs ta ca b).foldl accStep acc := by
+  unfold binSamples
+  rw [List.foldl_flatMap]
+  congr 1
+  funext acc dt
+  rw [List.foldl_map]
+
+end avg
+
+/-! ### rounding and excision (rationals) -/
+
+theorem roundHalfEven_bounds (x : Rat) :
+    x - 1 / 2 ≤ (roundHalfEven x : Rat) ∧ (roundHalfEven x : Rat) ≤ x + 1 / 2 := by
+  have h1 := Rat.floor_le (x + 1 / 2)
+  have h2 := Rat.lt_floor_add_one (x + 1 / 2)
+  unfold roundHalfEven
+  simp only
+  split
+  · rename_i h
+    rw [Int.cast_sub, Int.cast_one, h.1]
+    constructor <;> linarith
+  · rw [Int.cast_add, Int.cast_one] at h2
+    constructor <;> linarith
+
+/-- ties go to the even neighbour -/
+theorem roundHalfEven_tie_even (x : Rat)
+    (h : (roundHalfEven x : Rat) = x + 1 / 2 ∨ (roundHalfEven x : Rat) = x - 1 / 2) :
+    roundHalfEven x % 2 = 0 := by
+  have h2 := Rat.lt_floor_add_one (x + 1 / 2)
+  rw [Int.cast_add, Int.cast_one] at h2
+  unfold roundHalfEven at h ⊢
+  simp only at h ⊢
+  split
+  · rename_i hc
+    omega
+  · rename_i hc
+    rw [if_neg hc] at h
+    rcases h with h | h
+    · have : ¬ ((x + 1 / 2).floor % 2 ≠ 0) := fun ho => hc ⟨h, ho⟩
+      omega
+    · exfalso
+      linarith
+
+theorem roundHalfEven_nonneg {x : Rat} (hx : 0 ≤ x) : 0 ≤ roundHalfEven x := by
+  have := (roundHalfEven_bounds x).1
+  by_contra hneg
+  have h1 : roundHalfEven x ≤ -1 := by omega
+  have h2 : (roundHalfEven x : Rat) ≤ -1 := by exact_mod_cast h1
+  linarith
+
+theorem roundHalfEven_le_int {x : Rat} {n : Int} (hx : x ≤ n) : roundHalfEven x ≤ n := by
+  have := (roundHalfEven_bounds x).2
+  by_contra hgt
+  have h1 : n + 1 ≤ roundHalfEven x := by omega
+  have h2 : ((n + 1 : Int) : Rat) ≤ (roundHalfEven x : Rat) := by exact_mod_cast h1
+  rw [Int.cast_add, Int.cast_one] at h2
+  linarith
+
+theorem excision_formula (A : Rat) (d : Int) (w : Rat) (hA : A ≠ 0) :
+    excision A d w = 1 - ((roundHalfEven (w / (A / (d : Rat))) : Rat) * (A / (d : Rat))) / A := by
+  unfold excision excisionFraction integerCbfDumps
+  simp only
+  rw [sub_div, div_self hA]
+
+theorem excision_bounds (A : Rat) (d : Int) (w : Rat) (hA : 0 < A) (hd : 1 ≤ d) (h0 : 0 ≤ w) (h1 : w ≤ A) :
+    0 ≤ excision A d w ∧ excision A d w ≤ 1 := by
+  have hdq : (0 : Rat) < (d : Rat) := by exact_mod_cast (show (0 : Int) < d by omega)
+  have ha : 0 < A / (d : Rat) := div_pos hA hdq
+  have hx0 : 0 ≤ w / (A / (d : Rat)) := div_nonneg h0 ha.le
+  have hx1 : w / (A / (d : Rat)) ≤ (d : Rat) := by
+    rw [div_le_iff₀ ha]
+    have : (d : Rat) * (A / (d : Rat)) = A := by field_simp
+    linarith
+  have r0 : (0 : Rat) ≤ (roundHalfEven (w / (A / (d : Rat))) : Rat) := by
+    exact_mod_cast roundHalfEven_nonneg hx0
+  have r1 : (roundHalfEven (w / (A / (d : Rat))) : Rat) ≤ (d : Rat) := by
+    exact_mod_cast roundHalfEven_le_int hx1
+  rw [excision_formula A d w (ne_of_gt hA)]
+  have hw0 : 0 ≤ (roundHalfEven (w / (A / (d : Rat))) : Rat) * (A / (d : Rat)) := mul_nonneg r0 ha.le
+  have hw1 : (roundHalfEven (w / (A / (d : Rat))) : Rat) * (A / (d : Rat)) ≤ A := by
+    have := mul_le_mul_of_nonneg_right r1 ha.le
+    have e : (d : Rat) * (A / (d : Rat)) = A := by field_simp
+    linarith
+  constructor
+  · have : (roundHalfEven (w / (A / (d : Rat))) : Rat) * (A / (d : Rat)) / A ≤ 1 := by
+      rw [div_le_one hA]; exact hw1
+    linarith
+  · have : 0 ≤ (roundHalfEven (w / (A / (d : Rat))) : Rat) * (A / (d : Rat)) / A := div_nonneg hw0 hA.le
+    linarith
+
 end Weights
